@@ -132,6 +132,9 @@ def run_all(rules=None, jobs=None, verbose=True):
     vs = _load_variants()
     if rules is not None:
         vs = [v for v in vs if set(v["rules"]) & set(rules)]
+        # silent variants are checked against every rule: restrict them to the rules asked for
+        vs = [dict(v, rules=sorted(set(v["rules"]) & set(rules))) if v["expect"] == "silent" and len(v["rules"]) > 10 else v
+              for v in vs]
     jobs = jobs or min(16, os.cpu_count() or 4)
     out = []
     t0 = time.time()
